@@ -719,6 +719,24 @@ func actAlgToTransform(e *Env, a J) J {
 
 func actTransformToAlg(e *Env, a J) J {
 	kind := gs(a, "kind")
+	if _, ok := a["sawire"]; ok {
+		// an SA payload body as it arrived (any number of attributes per transform, several transforms / proposals): the idx-th
+		// transform of type tt in proposal prop, as the decoder filed it
+		sa2 := new(message.SecurityAssociation)
+		if err := sa2.Unmarshal(gox(a, "sawire")); err != nil {
+			return J{"wireerr": true, "alg": "unsupported"}
+		}
+		pi, tt, idx := gi(a, "prop"), gi(a, "tt"), gi(a, "idx")
+		if pi > len(sa2.Proposals) {
+			return J{"wireerr": true, "alg": "unsupported"}
+		}
+		p := sa2.Proposals[pi-1]
+		all := [][]*message.Transform{p.EncryptionAlgorithm, p.PseudorandomFunction, p.IntegrityAlgorithm, p.DiffieHellmanGroup, p.ExtendedSequenceNumbers}
+		if tt < 1 || tt > 5 || idx > len(all[tt-1]) {
+			return J{"wireerr": true, "alg": "unsupported"}
+		}
+		return transformToAlgObs(kind, all[tt-1][idx-1])
+	}
 	tj := gj(a, "tr")
 	t := buildTransform(tj)
 	if gb(a, "wire") {
@@ -751,6 +769,10 @@ func actTransformToAlg(e *Env, a J) J {
 			return J{"wireerr": true, "alg": "unsupported"}
 		}
 	}
+	return transformToAlgObs(kind, t)
+}
+
+func transformToAlgObs(kind string, t *message.Transform) J {
 	obs := J{}
 	switch kind {
 	case "encr":
